@@ -117,6 +117,15 @@ theorem bankOnly_fields {s s0 : State} (hb : BankOnly s s0) :
 theorem keyAddr_congr {s s0 : State} (h : s0.keys = s.keys) (k : Nat) : keyAddr s0 k = keyAddr s k := by
   simp only [keyAddr, h]
 
+/-- recording a delivered transaction in `blockTxs` touches neither validators nor parameters -/
+theorem txWrap_vals (mode : Mode) (t : Tx) (x : State) :
+    (if mode == Mode.deliver then { x with blockTxs := t.id :: x.blockTxs } else x).vals = x.vals := by
+  split <;> rfl
+
+theorem txWrap_p (mode : Mode) (t : Tx) (x : State) :
+    (if mode == Mode.deliver then { x with blockTxs := t.id :: x.blockTxs } else x).p = x.p := by
+  split <;> rfl
+
 /-- While the minimum-stake parameter is unchanged, every validator that is not unstaked holds at
 least the minimum stake. -/
 theorem min_stake_step (s : State) (op : Op) (r : State × List (Addr × Int) × Bool)
@@ -163,6 +172,12 @@ theorem min_stake_step (s : State) (op : Op) (r : State × List (Addr × Int) ×
     simp only [step, Option.some.injEq] at hs
     subst hs
     simp only at hp ⊢
+    have hp' : (runTx s mode t).1.p.minStake = s.p.minStake :=
+      (congrArg Params.minStake (txWrap_p mode t _)).symm.trans hp
+    refine MinStakeOK.of_eq ?_ (txWrap_vals mode t _) (txWrap_p mode t _)
+    clear hp
+    have hp := hp'
+    clear hp'
     rcases runTx_cases s mode t with h1 | ⟨_, s0, hb, h1 | h1⟩
     · rw [h1]; exact hm
     · rw [h1.1]; exact hm.of_eq hb.vals hb.p
@@ -232,6 +247,11 @@ theorem edge_of_eq {s s' : State} {op : Op} {ok : Bool} {a : Addr} (h : aget s'.
   | none => trivial
   | some v => exact Or.inl rfl
 
+theorem edge_congr {s s' s'' : State} {op : Op} {ok : Bool} {a : Addr} (hv : s''.vals = s'.vals)
+    (h : Edge s s' op ok a) : Edge s s'' op ok a := by
+  unfold Edge at h ⊢
+  rw [hv]; exact h
+
 theorem status_step (s : State) (op : Op) (r : State × List (Addr × Int) × Bool) (a : Addr)
     (h : Inv s) (hs : step s op = some r) : Edge s r.1 op r.2.2 a := by
   cases op with
@@ -294,6 +314,7 @@ theorem status_step (s : State) (op : Op) (r : State × List (Addr × Int) × Bo
     simp only [step, Option.some.injEq] at hs
     subst hs
     dsimp only
+    refine edge_congr (txWrap_vals mode t _) ?_
     rcases runTx_cases s mode t with h1 | ⟨hmode, s0, hb, h1 | h1⟩
     · rw [h1]; exact edge_of_eq rfl
     · rw [h1.1]; exact edge_of_eq (by rw [hb.vals])
